@@ -21,4 +21,7 @@ PY
 rsync -a harness/overlay/ "$S/repo/"
 (cd "$S/repo" && go test -count=1 -vet=off -tags verif -run '^$' ./... >/dev/null 2>&1 || true)
 (cd "$S/repo" && PATH=/opt/veriftools/go1.26.8/bin:$PATH GOROOT=/opt/veriftools/go1.26.8 go test -count=1 -vet=off -tags verif -run '^$' ./internal/corerad/ ./internal/system/ ./internal/netstate/ >/dev/null 2>&1 || true)
+# ... and the 32-bit build of the packages whose drivers also run under GOARCH=386
+(cd "$S/repo" && GOARCH=386 PATH=/opt/veriftools/go1.26.8/bin:$PATH GOROOT=/opt/veriftools/go1.26.8 go test -count=1 -vet=off -tags verif -run '^$' ./internal/corerad/ ./internal/config/ >/dev/null 2>&1 || true)
+(cd "$S/repo" && GOARCH=386 go test -count=1 -vet=off -tags verif -run '^$' ./internal/config/ >/dev/null 2>&1 || true)
 echo setup done
